@@ -117,6 +117,8 @@ pub enum Ev {
     P(u16),
     R(u16),
     T(u32),
+    /// an OS key-repeat event for a held key (family P only)
+    Rep(u16),
 }
 
 fn tok_hist(h: &[Ev]) -> String {
@@ -126,6 +128,7 @@ fn tok_hist(h: &[Ev]) -> String {
             Ev::P(c) => format!("p {c}"),
             Ev::R(c) => format!("r {c}"),
             Ev::T(n) => format!("t {n}"),
+            Ev::Rep(c) => format!("rp {c}"),
         });
     }
     out.join(" ")
@@ -839,6 +842,44 @@ pub fn gen(tier: &str, seed: u64) -> Vec<String> {
             }
         }
     }
+    // (P) OS key repeat inside sequence mode (seeded change C12g): defcfg input mode x leader
+    // (sldr, or `(sequence <t> <mode>)` overriding it with each of the three modes) x the position
+    // of the key that is HELD while repeat events arrive x 1-3 repeats; the sequence is completed
+    // inside the timeout.  Judged by runner/props.py _c12_repeat_oracle.
+    {
+        let n_tables = if thorough { 12 } else { 4 };
+        for ti in 0..n_tables {
+            let len = 2 + ti % 2;
+            let ks = distinct_keys(&mut r, len + 1, 12);
+            let t: Table = vec![
+                (ti % NVK, ks[..len].iter().map(|k| Item::Key(*k)).collect()),
+                ((ti + 1) % NVK, vec![Item::Key(ks[len]), Item::Key(ks[0])]),
+            ];
+            for mode in 0..3u8 {
+                for leader in 0..4u8 {
+                    // leader 0: sldr (the defcfg mode applies); 1..3: (sequence 200 <mode leader-1>)
+                    let o = Opts { mode, timeout: 200, always_on: false, modcancel: true, lmode: if leader == 0 { mode } else { leader - 1 }, lt: 200 };
+                    let lk = if leader == 0 { K_LEADER } else { K_LEADER2 };
+                    for held in 0..len {
+                        for reps in 1..=(if thorough { 3 } else { 2 }) {
+                            let mut h = vec![Ev::P(lk), Ev::T(3), Ev::R(lk), Ev::T(3)];
+                            for (i, k) in ks[..len].iter().enumerate() {
+                                h.extend([Ev::P(*k), Ev::T(3)]);
+                                if i == held {
+                                    for _ in 0..reps {
+                                        h.extend([Ev::Rep(*k), Ev::T(r.range(1, 3) as u32)]);
+                                    }
+                                }
+                                h.extend([Ev::R(*k), Ev::T(3)]);
+                            }
+                            h.push(Ev::T(12));
+                            lines.push(r_line(&o, &t, &h).replacen("C12 R ", "C12 P ", 1));
+                        }
+                    }
+                }
+            }
+        }
+    }
     lines
 }
 
@@ -1023,6 +1064,16 @@ fn out_code(name: &str, names: &[(String, u16)]) -> u16 {
 }
 
 fn eval_r(t: &mut Toks) -> String {
+    eval_r_in(t, false)
+}
+
+/// family P: an R line whose history may hold `rp <key>` (OS key repeat); no Lean model of
+/// `handle_repeat_actual`, so the answer is `unsupported :: TRACE <trace> | <final state>`
+fn eval_p(t: &mut Toks) -> String {
+    eval_r_in(t, true)
+}
+
+fn eval_r_in(t: &mut Toks, free: bool) -> String {
     let mode = t.num() as usize;
     let timeout = t.num();
     let ao = t.num() != 0;
@@ -1038,6 +1089,7 @@ fn eval_r(t: &mut Toks) -> String {
             "p" => Ev::P(t.num() as u16),
             "r" => Ev::R(t.num() as u16),
             "t" => Ev::T(t.num() as u32),
+            "rp" if free => Ev::Rep(t.num() as u16),
             x => panic!("harness: bad event token {x}"),
         });
     }
@@ -1084,6 +1136,11 @@ fn eval_r(t: &mut Toks) -> String {
             Ev::R(c) => k
                 .handle_input_event(&KeyEvent { code: OsCode::from_u16(c).expect("valid code"), value: KeyValue::Release })
                 .expect("input"),
+            // what a repeat writes is collected with the next tick (a repeat shows as a press in
+            // the simulated output)
+            Ev::Rep(c) => k
+                .handle_input_event(&KeyEvent { code: OsCode::from_u16(c).expect("valid code"), value: KeyValue::Repeat })
+                .expect("input"),
             Ev::T(n) => {
                 for _ in 0..n {
                     k.tick_ms(1, &None).expect("tick");
@@ -1129,7 +1186,8 @@ fn eval_r(t: &mut Toks) -> String {
         })
         .collect();
     format!(
-        "ok {} | {} | {} s={} o={} tk={} st={}",
+        "{}ok {} | {} | {} s={} o={} tk={} st={}",
+        if free { "unsupported :: TRACE " } else { "" },
         pairs,
         if trace.is_empty() { "-".to_string() } else { trace.join(" ") },
         if st.is_active() { "A" } else { "I" },
@@ -1149,6 +1207,7 @@ pub fn eval(line: &str) -> String {
             "Q" => eval_q(&mut t),
             "T" => eval_t(&mut t),
             "R" => eval_r(&mut t),
+            "P" => eval_p(&mut t),
             x => format!("harness-error bad case kind {x}"),
         }
     });
